@@ -153,6 +153,20 @@ def t_record_if(rng):
   if rng.random() < 0.6:
     cases.append([OP('==', x, L(2)), rec(OP('*', x, L(10)), L(60))])
   e = {'if': cases, 'else': rec(L(0), L(70))}
+  if rng.random() < 0.4:
+    # arms mixing record literals and a record read from a table column
+    tp = Pred('TR', ['col0', 'col1'], ['int', ('rec', (('a', 'int'), ('b', 'int')))], 'facts')
+    for k in (1, 2, 3):
+      prog.rules.append({'head': 'TR', 'args': [['col0', L(k)], ['col1', L({'$r': [['a', k * 10], ['b', k * 7]]})]], 'distinct': False, 'body': None})
+    prog.preds.append(tp)
+    arms = [[OP('==', x, L(1)), rec(L(5), L(50))], [OP('==', x, L(2)), V('r0')]]
+    rng.shuffle(arms)
+    e = {'if': arms, 'else': rec(L(0), L(70))}
+    body = AND(atom('TR', x, V('r0')), {'eq': [V('y'), e]},
+               {'eq': [V('v'), {'sub': V('y'), 'field': rng.choice(['a', 'b'])}]})
+    derived(prog, 'P', ['col0', 'col1'], ['int', 'int'], [rule('P', [['col0', x], ['col1', V('v')]], body)])
+    prog.features.add('tpl:record-if-mixed')
+    return prog
   body = AND(atom('A', x), {'eq': [V('r'), e]}, {'eq': [V('v'), {'sub': V('r'), 'field': rng.choice(['a', 'b'])}]})
   if rng.random() < 0.5:
     body = AND(atom('A', x), {'eq': [V('v'), {'sub': e, 'field': rng.choice(['a', 'b'])}]})
